@@ -417,10 +417,21 @@ class Parser:
     ) -> Expression:
         tok = stream.next_token()
         precedence = self.PRECEDENCES.get(tok.type_, self.PRECEDENCE_LOWEST)
-        right = self.parse_filter_expression(stream, precedence)
         operator = self.BINARY_OPERATORS[tok.type_]
 
+        if (
+            operator in self.COMPARISON_OPERATORS
+            and stream.current.type_ == TokenType.LPAREN
+        ):
+            raise JSONPathSyntaxError(
+                "comparison operands can not be parenthesized", token=stream.current
+            )
+
+        right = self.parse_filter_expression(stream, precedence)
+
         if operator in self.COMPARISON_OPERATORS:
+            self._raise_for_non_comparable_expression(left, tok)
+            self._raise_for_non_comparable_expression(right, tok)
             self._raise_for_non_comparable_function(left, tok)
             self._raise_for_non_comparable_function(right, tok)
             return ComparisonExpression(tok, left, operator, right)
@@ -517,6 +528,7 @@ class Parser:
     def parse_filter_expression(
         self, stream: TokenStream, precedence: int = PRECEDENCE_LOWEST
     ) -> Expression:
+        left_is_group = stream.current.type_ == TokenType.LPAREN
         try:
             left = self.token_map[stream.current.type_](stream)
         except KeyError as err:
@@ -530,6 +542,14 @@ class Parser:
 
         while True:
             peek_kind = stream.peek.type_
+            if (
+                left_is_group
+                and self.BINARY_OPERATORS.get(peek_kind) in self.COMPARISON_OPERATORS
+            ):
+                raise JSONPathSyntaxError(
+                    "comparison operands can not be parenthesized", token=stream.peek
+                )
+            left_is_group = False
             if (
                 peek_kind in (TokenType.EOF, TokenType.RBRACKET)
                 or self.PRECEDENCES.get(peek_kind, self.PRECEDENCE_LOWEST) < precedence
@@ -671,6 +691,20 @@ class Parser:
 
     def _is_low_surrogate(self, codepoint: int) -> bool:
         return codepoint >= 0xDC00 and codepoint <= 0xDFFF
+
+    def _raise_for_non_comparable_expression(
+        self, expr: Expression, token: Token
+    ) -> None:
+        # A comparable is a literal, a singular query or a function expression,
+        # never a negated, compared or logical expression.
+        if not isinstance(
+            expr, (FilterExpressionLiteral, FilterQuery, FunctionExtension)
+        ):
+            raise JSONPathSyntaxError(
+                "expected a literal, a singular query or a function call "
+                f"as an operand of {token.value!r}",
+                token=token,
+            )
 
     def _raise_for_non_comparable_function(
         self, expr: Expression, token: Token
